@@ -79,6 +79,12 @@ type rspWatch struct {
 	done chan struct{}
 }
 
+type rspPing struct {
+	ref     vivid.ActorRef
+	out     chan string
+	timeout time.Duration
+}
+
 // spawnRspAgent: watcher / killer / pinger / piper / forwarder; acknowledges that Watch was issued
 func spawnRspAgent(n *Node, name string, al *agentLog) (vivid.ActorRef, error) {
 	return n.Sys.ActorOf(vivid.ActorFN(func(ctx vivid.ActorContext) {
@@ -88,8 +94,8 @@ func spawnRspAgent(n *Node, name string, al *agentLog) (vivid.ActorRef, error) {
 			close(m.done)
 		case *doKill:
 			ctx.Kill(m.ref, m.poison, m.reason)
-		case *doPing:
-			p, err := ctx.Ping(m.ref, 5*time.Second)
+		case *rspPing:
+			p, err := ctx.Ping(m.ref, m.timeout)
 			switch {
 			case err != nil:
 				m.out <- "error: " + err.Error()
@@ -124,7 +130,7 @@ func connFrom(from, to *Node) *PConn {
 	syncSeq++
 	m := &XMsg{Kind: KSync, Sender: 0, Seq: syncSeq}
 	from.Sys.Tell(RemoteRecv(to), m)
-	if !waitUntil(3*time.Second, func() bool { return hasSync(to, m.Seq) }) {
+	if !waitUntil(opWait, func() bool { return hasSync(to, m.Seq) }) {
 		return nil
 	}
 	mark := encPayload(m)
@@ -142,7 +148,7 @@ func connFrom(from, to *Node) *PConn {
 }
 
 func quiet(c *PConn) int {
-	waitUntil(time.Second, func() bool {
+	waitUntil(5*time.Second, func() bool {
 		a := c.Received()
 		if a != c.Pos() {
 			return false
@@ -186,7 +192,7 @@ func (h *H) respawnRounds(A, B, C *Node) {
 		plan := func(int) Plan { p := defaultPlan(); p.Mode, p.RandMax, p.Seed = mode, 9, h.seed+uint64(500+i); return p }
 		// fresh connections, under this round's chunking, in the directions whose RECEIVING side is under test
 		for _, pr := range [][2]*Node{{A, B}, {C, B}, {A, C}} {
-			if !h.resync(pr[0], pr[1], plan) && !h.resync(pr[0], pr[1], plan) {
+			if !h.resync(pr[0], pr[1], plan) { // resync retries once by itself
 				h.o.Monitor("c15-no-connection", nil, "no connection "+pr[0].Name+"->"+pr[1].Name)
 				h.abort = true
 				return
@@ -237,6 +243,14 @@ func (h *H) respawnRound(A, B, C *Node, i, mode, incs int) {
 			h.o.Monitor(pre+op, desc, what+": "+detail)
 			failedAny = true
 		}
+		// generous single-shot bounds (they end as soon as the awaited thing happens); once something has failed in this
+		// round the rest is only diagnostics: do not wait long for it
+		wait := func(d time.Duration) time.Duration {
+			if failedAny {
+				return 3 * time.Second
+			}
+			return d
+		}
 		tref, err := spawnRspTarget(B, name, inc, tl)
 		if err != nil {
 			h.o.Monitor("harness-respawn", desc, fmt.Sprintf("could not spawn incarnation %d at %s: %v", k, path, err))
@@ -262,8 +276,8 @@ func (h *H) respawnRound(A, B, C *Node, i, mode, incs int) {
 			A.Sys.Tell(remote, newMsg(KTell, rspRemote, fmt.Sprintf("tell-%d-%d", k, j)))
 			B.Sys.Tell(tref, newMsg(KTell, rspLocal, "local"))
 		}
-		waitUntil(5*time.Second, func() bool { return tl.count(inc, rspLocal) >= 3 })
-		okT := waitUntil(3*time.Second, func() bool { return tl.count(inc, rspRemote) >= 3 })
+		waitUntil(opWait, func() bool { return tl.count(inc, rspLocal) >= 3 })
+		okT := waitUntil(wait(opWait), func() bool { return tl.count(inc, rspRemote) >= 3 })
 		if tl.count(inc, rspLocal) != 3 {
 			h.o.Monitor("c15-local-control", desc, what+": 3 Tells through the LOCAL ref, the actor received "+fmt.Sprint(tl.count(inc, rspLocal)))
 		} else if !okT {
@@ -281,7 +295,7 @@ func (h *H) respawnRound(A, B, C *Node, i, mode, incs int) {
 		// --- Ask / Reply ---
 		ask := func(n *Node, ref vivid.ActorRef, sender uint32) string {
 			m := newMsg(KAsk, sender, "ask")
-			res, err := n.Sys.Ask(ref, m, 5*time.Second).Result()
+			res, err := n.Sys.Ask(ref, m, wait(askWait)).Result()
 			if err != nil {
 				return "error: " + err.Error()
 			}
@@ -304,12 +318,12 @@ func (h *H) respawnRound(A, B, C *Node, i, mode, incs int) {
 			ag, err := spawnRspAgent(n, fmt.Sprintf("%s-%s-%d", name, nm, k), &agentLog{})
 			mustNot(err)
 			out := make(chan string, 1)
-			n.Sys.Tell(ag, &doPing{ref, out})
+			n.Sys.Tell(ag, &rspPing{ref, out, wait(askWait)})
 			select {
 			case r := <-out:
 				return r
-			case <-time.After(8 * time.Second):
-				return "did not return within 8 s"
+			case <-time.After(wait(askWait) + 5*time.Second):
+				return "did not return"
 			}
 		}
 		if r := ping(B, "pingB", tref); r != "" {
@@ -327,7 +341,7 @@ func (h *H) respawnRound(A, B, C *Node, i, mode, incs int) {
 		for _, fail := range []bool{false, true} {
 			l0, f0 := lf.nPipes(), rf.nPipes()
 			m := newMsg(KAsk, rspRemote, "pipe")
-			timeout := 5 * time.Second
+			timeout := wait(askWait)
 			if fail {
 				m.Data = []byte("pipe-noreply") // the target does not answer this one: the Ask times out
 				timeout = 150 * time.Millisecond
@@ -337,12 +351,12 @@ func (h *H) respawnRound(A, B, C *Node, i, mode, incs int) {
 			var id string
 			select {
 			case id = <-idc:
-			case <-time.After(5 * time.Second):
+			case <-time.After(opWait):
 				fire("pipe", "PipeTo did not return")
 				continue
 			}
-			waitUntil(6*time.Second, func() bool { return lf.nPipes() > l0 })
-			waitUntil(3*time.Second, func() bool { return rf.nPipes() > f0 })
+			waitUntil(timeout+wait(opWait), func() bool { return lf.nPipes() > l0 })
+			waitUntil(wait(opWait), func() bool { return rf.nPipes() > f0 })
 			time.Sleep(5 * time.Millisecond)
 			check := func(al *agentLog, from int) string {
 				al.mu.Lock()
@@ -396,7 +410,7 @@ func (h *H) respawnRound(A, B, C *Node, i, mode, incs int) {
 			x.node.Sys.Tell(x.ref, &rspWatch{x.tgt, done})
 			select {
 			case <-done:
-			case <-time.After(5 * time.Second):
+			case <-time.After(opWait):
 			}
 		}
 		// an Ask answers only after the Watch sent before it on the same connection was handled
@@ -410,18 +424,19 @@ func (h *H) respawnRound(A, B, C *Node, i, mode, incs int) {
 		poison := (i+k)%2 == 1
 		reason := fmt.Sprintf("respawn-%d-%d", i, k)
 		A.Sys.Tell(killer, &doKill{remote, poison, reason})
-		terminated := gone(B, tref, 5*time.Second)
+		killWait := wait(opWait)
+		terminated := gone(B, tref, killWait)
 		if !terminated {
-			fire("kill", fmt.Sprintf("remote Kill(poison=%v) from %s%s did not terminate the actor within 5 s", poison, A.Adv, killer.GetPath()))
+			fire("kill", fmt.Sprintf("remote Kill(poison=%v) from %s%s did not terminate the actor within %v", poison, A.Adv, killer.GetPath(), killWait))
 			// clean up through the local ref so that the name can be used again
 			B.Sys.Kill(tref, false, "harness cleanup")
-			if !gone(B, tref, 5*time.Second) {
+			if !gone(B, tref, opWait) {
 				h.o.Monitor("harness-respawn", desc, "the actor did not terminate after a local Kill either")
 				h.abort = true
 				return
 			}
 		} else {
-			waitUntil(5*time.Second, func() bool {
+			waitUntil(opWait, func() bool {
 				for _, x := range ws {
 					if x.log.nKilled() < 1 {
 						return false
@@ -454,7 +469,7 @@ func (h *H) respawnRound(A, B, C *Node, i, mode, incs int) {
 		// --- nobody lives at P now: a Tell through the remote ref is a dead letter on B ---
 		post := newMsg(KTell, rspRemote, "after-kill")
 		A.Sys.Tell(remote, post)
-		waitUntil(3*time.Second, func() bool {
+		waitUntil(opWait, func() bool {
 			B.Ev.mu.Lock()
 			defer B.Ev.mu.Unlock()
 			for _, x := range B.Ev.Dead[dead0:] {
@@ -478,7 +493,7 @@ func (h *H) respawnRound(A, B, C *Node, i, mode, incs int) {
 		cursor = r2
 		// the forwarder on C is re-created for the next incarnation as well
 		C.Sys.Kill(fwdC, false, "respawn round")
-		if !gone(C, fwdC, 5*time.Second) {
+		if !gone(C, fwdC, opWait) {
 			h.o.Monitor("harness-respawn", desc, "the forwarder on C did not terminate")
 			h.abort = true
 			return
